@@ -1029,7 +1029,7 @@ class BitwiseAndCriterion(Criterion):
     def get_sql(self, ctx: SqlContext) -> str:
         sql = "({term} & {value})".format(
             term=self.term.get_sql(ctx),
-            value=self.value,
+            value=self.value.get_sql(ctx),
         )
         return format_alias_sql(sql, self.alias, ctx)
 
